@@ -6,6 +6,9 @@ algebraic identities as invariants in the same runs, and emits (expression strin
 document).  Binding: G - the harness replays every case through jmespath::search and make_expression +
 evaluate (throwing and error_code overloads, json and ojson), compares value / "an error was reported",
 compiled vs one-shot agreement, and the document before/after.
+Known findings: predictions are always the specification's; the spec additionally tags each (case, document) with the names
+of the known-deviation classes it falls into (field "dev"), sig() gives tagged mismatches the coarse signature {dev, what}, and
+/verif/known_findings.jsonl lists one entry per root cause (KNOWN-FINDING lines; anything unmatched is a VIOLATION).
 Spec validation (infrastructure, not a verdict on jsoncons): the spec evaluates the official compliance suite
 (spec/gen/MC_C13corpus.tla, produced by `python3 checks/c13.py mkcorpus` with the reference parser below) and
 must reproduce every expected result; parse(Show(e)) = e is checked with the same parser on generated cases."""
@@ -632,7 +635,7 @@ def run(tier):
                    'predicted error')
     cov['bounds'] = {c: open(os.path.join(vf.SPEC, c)).read().split('CONSTANTS')[1].split('KnownDeviations')[0].split() for c in CFG[tier]}
     kd = open(os.path.join(vf.SPEC, CFG[tier][0])).read().split('KnownDeviations =')[1].strip()
-    cov['known_deviations_excluded'] = kd
+    cov['known_deviation_classes_tagged'] = kd
     cov['samples'] = vf.sample_lines(g[0][0], 2) + vf.sample_lines(g[2][0], 1)
     rep.assumptions += [
         'numbers are small integers; floating-point results (avg), to_string of anything but strings and booleans, to_number of strings that are not canonical integers are dont-care',
@@ -641,7 +644,7 @@ def run(tier):
         'a value or an error is acceptable when || / && decides on the left operand and the right operand would fail (the specification does not say the right side is skipped)',
         'ordering comparators on two strings, contains(string, non-string), max_by/min_by ties between different elements, expression-types passed for "any" parameters, to_array(null) are dont-care',
         'expressions whose reading the grammar leaves open are not generated: "!" before a dotted/indexed expression, chained comparators, a filter inside the right-hand side of a filter projection, postfixes after a leading ".[..]"/".{..}" of a right-hand side, backslashes in raw strings, empty quoted identifiers',
-        'cases that hit the suspected defects listed in notes/C13.md are excluded while the names are in KnownDeviations of the generator configs: ' + kd]
+        'cases that fall into a known-deviation class (notes/C13.md, SUSPECTED DEFECTS) are generated, predicted strictly and compared like all others; the spec only tags them (field dev) and a mismatch on a tagged (case, document) is matched against known_findings.jsonl by {dev, what}: ' + kd]
     return rep.finish(dict(harness='c13', docs=docs))
 
 
